@@ -329,7 +329,7 @@ class TreeLikelihoodModel(CallableModel):
     def _call(self, *args, **kwargs) -> torch.Tensor:
         branch_lengths = self.tree_model.branch_lengths()
         sample_shape = self.sample_shape
-        rates = self.site_model.rates()
+        rates = self.site_model.rates().to(branch_lengths.dtype)
         # for models like JC69 rates is always tensor([1.0])  (i.e. sample_shape == [])
         if rates.dim() == 1:
             rates = rates.expand(sample_shape + (1, -1))
@@ -362,7 +362,12 @@ class TreeLikelihoodModel(CallableModel):
         mats = self.subst_model.p_t(bls.reshape(sample_shape + (-1, 1)) * rates)
         frequencies = self.subst_model.frequencies.reshape(
             self.subst_model.frequencies.shape[:-1] + (1, -1)
-        )
+        ).to(mats.dtype)
+        probs = probs.to(mats.dtype)
+        if not self.use_tip_states and self.partials[0].dtype != mats.dtype:
+            # tip partials are built in the default dtype
+            for i in range(len(self.tree_model.taxa)):
+                self.partials[i] = self.partials[i].to(mats.dtype)
 
         if self.use_tip_states:
             log_p = self.calculate_with_tip_states(mats, frequencies, probs)
